@@ -140,6 +140,56 @@ fn eval(s: &str, st: &mut Stats, enumerated: bool) {
     }
 }
 
+/// `s` evaluated after the calls `history` were made on the same thread: the result for `s` must not depend on them
+fn eval_after(history: &[&str], s: &str, st: &mut Stats) {
+    st.eval();
+    st.count("inputs_after_history");
+    let r = crate::guarded(|| {
+        for h in history {
+            let _ = anstyle_ls::parse(h);
+        }
+        check(s)
+    });
+    let mut case = Case::new("c12").b(s.as_bytes());
+    for h in history {
+        case = case.b(h.as_bytes());
+    }
+    let hist = || history.iter().map(|h| format!("{:?}", h)).collect::<Vec<_>>().join(", ");
+    match r {
+        Ok(Ok(kind)) => st.count(&format!("inputs_{kind}")),
+        Ok(Err((sig, msg))) => st.viol(&sig, format!("after parse of {}: {}", hist(), msg), case),
+        Err(p) => st.viol("c12:panic", format!("after parse of {}: parse({:?}) panicked: {p}", hist(), s), case),
+    }
+}
+
+/// near-duplicates of a list: strings a cache key, a trimmed comparison or a packed representation could confuse with it
+pub fn near_duplicates(s: &str) -> Vec<String> {
+    let mut v = vec![];
+    for k in 1..=3 {
+        v.push(format!("{}{}", "\u{0}".repeat(k), s));
+        v.push(format!("{}{}", s, "\u{0}".repeat(k)));
+        v.push(format!("{}{}", "0".repeat(k), s));
+    }
+    for pad in [" ", "\t", "\n", "+", "-", "\u{1}", "\u{7f}", "\u{80}", "\u{ff}", "\u{100}", ":", ";"] {
+        v.push(format!("{pad}{s}"));
+        v.push(format!("{s}{pad}"));
+    }
+    // the same bytes in another order, one byte changed, one byte more or less
+    v.push(s.chars().rev().collect());
+    if s.len() > 1 {
+        v.push(s[1..].to_string());
+        v.push(s[..s.len() - 1].to_string());
+        let mut b: Vec<char> = s.chars().collect();
+        b.swap(0, 1);
+        v.push(b.into_iter().collect());
+    }
+    v.push(format!("{s}{s}"));
+    v.push(format!("{s};{s}"));
+    v.push(s.replace(';', ":"));
+    v.push(s.replace(';', ";;"));
+    v
+}
+
 /// code "units": every single code 0..=110 plus complete extended forms for each slot
 pub fn units() -> Vec<String> {
     let mut v: Vec<String> = (0..=110).map(|c| c.to_string()).collect();
@@ -243,6 +293,38 @@ pub fn run(cfg: &Cfg) -> Stats {
             for (good, bad) in [("01;31", "01;3x"), ("38;5;208", "38;5;2080"), ("4", "")] {
                 for s in [good, bad, bad, good, bad, good, good] {
                     eval(s, &mut st, true);
+                }
+            }
+        }
+        // near-duplicates on one thread, in both orders and with the original in between (results must not depend on
+        // which of two similar strings this thread saw first); the well-formed lists are short ones and a few long ones
+        {
+            let mut bases: Vec<String> = vec!["1".into(), "01".into(), "4".into(), "31".into(), "01;31".into(), "1;31".into(), "38;5;1".into(), "38;5;208".into(), "7;7;7;7".into(), "255".into(), "0;1".into(), "1;0;4".into(), "48;2;1;2;3".into(), "01;38;5;208;48;2;1;2;3;22".into()];
+            for c in SUBSET40 {
+                bases.push(c.to_string());
+                bases.push(format!("{c};{}", 107 - (c % 100)));
+            }
+            for base in &bases {
+                if !mine() {
+                    continue;
+                }
+                for d in near_duplicates(base) {
+                    eval_after(&[], base, &mut st);
+                    eval_after(&[base], &d, &mut st);
+                    eval_after(&[base, &d], base, &mut st);
+                    eval_after(&[base, &d, base], &d, &mut st);
+                    eval_after(&[&d, &d], base, &mut st);
+                }
+            }
+            // two different well-formed lists whose texts are permutations / extensions of each other
+            for (a, b) in [("1;3", "3;1"), ("13", "31"), ("1;31", "31;1"), ("38;5;1", "38;5;10"), ("38;5;10", "38;5;100"), ("4;24", "24;4"), ("1", "10"), ("10", "100"), ("48;5;7", "48;5;70"), ("30;40", "40;30")] {
+                if !mine() {
+                    continue;
+                }
+                for (x, y) in [(a, b), (b, a)] {
+                    eval_after(&[x], y, &mut st);
+                    eval_after(&[x, y], x, &mut st);
+                    eval_after(&[x, x, y, y], x, &mut st);
                 }
             }
         }
@@ -366,7 +448,13 @@ pub fn run(cfg: &Cfg) -> Stats {
 pub fn replay(case: &Case) -> Result<String, Viol> {
     let b = case.bytes.first().cloned().unwrap_or_default();
     let s = String::from_utf8_lossy(&b).into_owned();
-    match crate::guarded(|| check(&s)) {
+    let history: Vec<String> = case.bytes.iter().skip(1).map(|h| String::from_utf8_lossy(h).into_owned()).collect();
+    match crate::guarded(|| {
+        for h in &history {
+            let _ = anstyle_ls::parse(h);
+        }
+        check(&s)
+    }) {
         Ok(Ok(k)) => Ok(format!("{k}: parser and interpreter agree")),
         Ok(Err((sig, msg))) => Err(Viol { case: case.clone(), msg, sig }),
         Err(p) => Err(Viol { case: case.clone(), msg: format!("parse({:?}) panicked: {p}", s), sig: "c12:panic".into() }),
